@@ -99,6 +99,37 @@ def _mk_mirror(kind_a, kind_b, guards):
     return body
 
 
+def _mk_psi_reversal(kind, guards=0):
+    """the same topology with psi -> -psi: identical regions, sizes and connections; every radial segment descriptor (limits and the
+    separatrix gradients handed to the radial grid function) is negated"""
+    def body(env):
+        sym = env.mode == "sym"
+        capa, capb = {}, {}
+        eqa, ma, ta, sa = c08.build(env, kind, guards, capture=capa, pf=(0.95, 0.85))
+        eqb, mb, tb, sb = c08.build(env, kind, guards, capture=capb, pf=(0.95, 0.85), psi_sign=-1.0)
+        env.witness("both_built")
+        ZB = (lambda t: SymBool(t)) if sym else (lambda t: bool(z3.is_true(z3.simplify(t))))
+        env.claim("same_regions_in_same_order", list(eqa.regions) == list(eqb.regions))
+        for n, rega in eqa.regions.items():
+            regb = eqb.regions[n]
+            env.claim("same_kind_and_connections:" + n, rega.kind == regb.kind and rega.connections == regb.connections)
+            env.claim("same_sizes:" + n, ZB(z3.And(zi(rega.ny_noguards) == zi(regb.ny_noguards), *[zi(x) == zi(y) for x, y in zip(rega.nx, regb.nx)])))
+        for k in ta:
+            env.claim("same_topology_integers", ZB(zi(ta[k]) == zi(tb[k])))
+        sega, segb = capa["segments"], capb["segments"]
+        env.claim("same_segment_names", sorted(sega) == sorted(segb))
+        for n, da in sega.items():
+            db = segb.get(n)
+            if db is None:
+                continue
+            for key in ("psi_start", "psi_end", "grad_start", "grad_end"):
+                env.claim("segment_has_same_keys:%s" % n, (key in da) == (key in db))
+                if key in da and key in db:
+                    env.claim_eq("negated_segment_%s:%s" % (key, n), db[key], -da[key])
+            env.claim("same_segment_nx:%s" % n, ZB(zi(da["nx"]) == zi(db["nx"])))
+    return body
+
+
 # ---------------------------------------------------------------------------------------------
 NAMES_UP = ["g11", "g22", "g33", "g12", "g13", "g23"]
 NAMES_DN = ["g_11", "g_22", "g_33", "g_12", "g_13", "g_23"]
@@ -166,6 +197,10 @@ for (_a, _b) in (("lsn", "usn"), ("ldn", "udn"), ("cdn", "cdn")):
                               encodes=ENC8, desc="the upper variant is the lower variant with lower<->upper relabelled, y order reversed (per inner/outer block for double null), "
                               "connections and X-point flags mirrored, ixseps exchanged and branch cuts mirrored", stubs=["findLegs etc. as C08"],
                               bounds="all sizes symbolic >= 1; mirrored leg sizes equal; y_boundary_guards=%d" % _g))
+for _k in ("lsn", "usn", "cdn", "ldn", "udn"):
+    OBLIGATIONS.append(Ob("descriptor_psi_reversal_%s" % _k, _mk_psi_reversal(_k), tier="quick", family="field reversal",
+                          encodes=ENC8, desc="psi -> -psi (psi decreasing outwards): same regions, sizes, connections and topology integers; radial segment limits and separatrix "
+                          "gradients negated", stubs=["findLegs etc. as C08"], bounds="all sizes symbolic >= 1; y_boundary_guards=0"))
 for _o in (True, False):
     for _w in ("reverse_current", "reverse_Bt"):
         OBLIGATIONS.append(Ob("metric_%s_%s" % (_w, "orth" if _o else "nonorth"), _mk_sign(_o, _w), tier="quick", family="field reversal",
